@@ -89,4 +89,27 @@ def pyEnumFoldE {α σ : Type} (xs : List α) (init : σ) (f : Nat → α → σ
       | .ok s' => go (i + 1) r s'
   go 0 xs init
 
+/-- `d.keys()` of a dict held as an association list (insertion order) -/
+def pyKeys {ν : Type} (d : List (Int × ν)) : List Int := d.map Prod.fst
+instance : PyContains (List Int) Int := ⟨fun l x => decide (x ∈ l)⟩
+/-- `max(xs)`: `ValueError` on an empty sequence -/
+def pyMax (xs : List Int) : Except PyErr Int :=
+  match xs.max? with
+  | some m => .ok m
+  | none => .error .valueError
+/-- `d[k]` on a dict held as an association list: `KeyError` when absent -/
+def pyAssocGet {ν : Type} (d : List (Int × ν)) (k : Int) : Except PyErr ν :=
+  match lookup k d with
+  | some v => .ok v
+  | none => .error .keyError
+/-- a loop whose body can raise, over the items of a list -/
+def pyFoldE {α σ : Type} (f : α → σ → Except PyErr σ) : List α → σ → Except PyErr σ
+  | [], s => .ok s
+  | x :: r, s => match f x s with
+    | .error e => .error e
+    | .ok s' => pyFoldE f r s'
+/-- `for i in range(lo, hi): state = body(i, state)` -/
+def pyRangeFoldE {σ : Type} (lo hi : Int) (init : σ) (f : Int → σ → Except PyErr σ) : Except PyErr σ :=
+  pyFoldE f ((List.range (hi - lo).toNat).map fun (i : Nat) => lo + (i : Int)) init
+
 end Opcua
